@@ -92,7 +92,7 @@ class Recorder:
 
 def order_snapshot(o, name):
     s = o.simulated
-    return {"o": name, "side": o.side, "otype": o.order_type.ORDER_TYPE.name, "sel": o.selection_id,
+    return {"o": name, "strategy": getattr(o.trade.strategy, "idx", 0), "side": o.side, "otype": o.order_type.ORDER_TYPE.name, "sel": o.selection_id,
             "tif": getattr(o.order_type, "time_in_force", None), "mf": getattr(o.order_type, "min_fill_size", None),
             "status": o.status.value if o.status else None, "complete": o.complete,
             "log": [x.value for x in o.status_log],
